@@ -133,7 +133,10 @@ TEXT_CASES = [
     ("{{inner|{{kv}}}}", "<k=v>"), ("{{outerk|1=x=y}}", "<x=y>"), ("{{inner|1=a=b}}", "<a=b>"),
     ("{{outer|1=x=y}}", "<x=y>"), ("{{outer|1=http://h/?q=1}}", "<http://h/?q=1>"), ("{{fwd2|1=x=y}}", "<x=y>"),
     ("{{outer|1= x=y }}", "<x=y>"),
+    # transclusion of pages outside the Template namespace follows the same includable-part rules
+    ("{{:Mainpage}}", "ac"), ("{{Help:Hp}}", "h"), ("x{{:Mainpage}}y{{:Mainpage}}", "xacyac"),
 ]
+TEXT_PAGES = [("Mainpage", 0, "a<noinclude>b</noinclude><includeonly>c</includeonly>"), ("Help:Hp", 12, "h<noinclude>n</noinclude>")]
 
 
 def work_text(payload, skip, report):
@@ -141,6 +144,8 @@ def work_text(payload, skip, report):
     ctx = new_ctx()
     for name, body in TEXT_LIB.items():
         ctx.add_page("Template:" + name, 10, body)
+    for t, ns, b in TEXT_PAGES:
+        ctx.add_page(t, ns, b)
     for i, (page, want) in enumerate(payload):
         report(i)
         ctx.start_page("Tt")
